@@ -1952,6 +1952,27 @@ class RngV:
         return SArr((size,), lambda idx: af((pos(idx[0]),)) if af is not None else pos(idx[0]), "int")
 
 
+def _rng_permutation(self, x):
+    """a permutation of 0..n-1 (or of the entries of a 1-d array): uninterpreted bijection of the seed"""
+    arr = A.from_nested(x) if not is_num(x) else None
+    n = arr.shape[0] if arr is not None else X._unfrac(x)
+    self.draws += 1
+    seed_t = V.lift(self.seed) if self.seed is not None else z3.IntVal(-1)
+    f = z3.Function(f"rng_perm_{self.draws}", z3.IntSort(), z3.IntSort(), z3.IntSort(), z3.IntSort())
+    p = V.PATH[0]
+    if p is not None:
+        s_, t_ = z3.Int(V.fresh_name("ps")), z3.Int(V.fresh_name("pt"))
+        nt = V.lift(n)
+        p.conds.append(z3.ForAll([t_], z3.Implies(z3.And(t_ >= 0, t_ < nt),
+                                                  z3.And(f(seed_t, nt, t_) >= 0, f(seed_t, nt, t_) < nt))))
+        p.conds.append(z3.ForAll([s_, t_], z3.Implies(z3.And(s_ >= 0, s_ < nt, t_ >= 0, t_ < nt, s_ != t_),
+                                                      f(seed_t, nt, s_) != f(seed_t, nt, t_))))
+    af = arr.snapshot() if arr is not None else None
+    return SArr((n,), lambda idx: af((Sym(f(seed_t, V.lift(n), V.lift(idx[0]))),)) if af is not None
+                else Sym(f(seed_t, V.lift(n), V.lift(idx[0]))), "int")
+
+
+RngV.permutation = _rng_permutation
 REG["numpy.random.default_rng"] = lambda seed=None: RngV(seed)
 REG["numpy.random.Generator"] = RngV
 
